@@ -165,6 +165,7 @@ def run(chk):
     chk.assumptions = ["arguments are restricted to kinds whose display the documentation fixes (integers, strings, booleans, null)",
                        "radix letters only with non-negative integers; fills exclude b o x X { } : < > (DESIGN.md section 5)"]
     chk.floor = 3000
+    chk.rule += '; plus arguments longer than any stream buffer with line breaks at odd places, index numerals at the edges of the machine integers, and the padding rule applied to values whose display is not fixed (floats, bytes, chars, containers) relative to their own "{}" text'
     n = 12000 if quick else 150000
     jobs = []
     while len(jobs) < n:
